@@ -664,7 +664,7 @@ impl PaZipCompressor {
                     output.push(byte_value);
                 }
             }
-            CompressionType::NearShort | CompressionType::Far1Short => {
+            CompressionType::NearShort => {
                 // Read distance and length (both as single bytes)
                 if new_pos + 1 >= input.len() {
                     return Ok(new_pos);
@@ -675,14 +675,29 @@ impl PaZipCompressor {
 
                 self.copy_from_distance(output, distance, length)?;
             }
-            CompressionType::Far2Short => {
+            CompressionType::Far1Short => {
                 // Read 2-byte distance and 1-byte length
+                // (layout written by apply_compression_strategy: [distance_2_bytes] [length])
                 if new_pos + 2 >= input.len() {
                     return Ok(new_pos);
                 }
                 let distance = u16::from_le_bytes([input[new_pos], input[new_pos + 1]]) as usize;
                 let length = input[new_pos + 2] as usize;
                 new_pos += 3;
+
+                self.copy_from_distance(output, distance, length)?;
+            }
+            CompressionType::Far2Short => {
+                // Read 4-byte distance and 1-byte length
+                // (layout written by apply_compression_strategy: [distance_4_bytes] [length])
+                if new_pos + 4 >= input.len() {
+                    return Ok(new_pos);
+                }
+                let distance = u32::from_le_bytes([
+                    input[new_pos], input[new_pos + 1], input[new_pos + 2], input[new_pos + 3]
+                ]) as usize;
+                let length = input[new_pos + 4] as usize;
+                new_pos += 5;
 
                 self.copy_from_distance(output, distance, length)?;
             }
@@ -1343,6 +1358,51 @@ mod tests {
         Ok(())
     }
     
+    /// The token layout written by `apply_compression_strategy` for every local match
+    /// type must be the layout `decompress` parses.
+    #[test]
+    fn test_local_match_token_layout_roundtrip() -> Result<()> {
+        let cases = [
+            (5u32, 4u32, CompressionType::NearShort),
+            (40, 20, CompressionType::Far1Short),
+            (257, 33, CompressionType::Far1Short),
+            (300, 20, CompressionType::Far2Short),
+            (65793, 33, CompressionType::Far2Short),
+            (300, 40, CompressionType::Far2Long),
+            (70000, 40, CompressionType::Far3Long),
+        ];
+
+        for &(distance, length, match_type) in &cases {
+            let mut compressor = setup_test_compressor()?;
+
+            // `distance` bytes of history, then the first `length` bytes of it again
+            let history: Vec<u8> = (0..distance as usize).map(|i| (i * 7 + i / 251) as u8).collect();
+            let mut input = history.clone();
+            input.extend_from_slice(&history[..length as usize]);
+
+            let mut stream = Vec::new();
+            let mut pos = 0;
+            while pos < history.len() {
+                let n = (history.len() - pos).min(200) as u8;
+                pos += compressor.apply_compression_strategy(
+                    &input, pos, CompressionStrategy::Literal { length: n }, &mut stream)?;
+            }
+            let advance = compressor.apply_compression_strategy(
+                &input, pos, CompressionStrategy::Local { distance, length, match_type }, &mut stream)?;
+            assert_eq!(advance, length as usize);
+
+            let mut output = Vec::new();
+            compressor.decompress(&stream, &mut output)?;
+            assert!(
+                output == input,
+                "{:?} (distance {}, length {}): decompressed {} bytes, expected {}",
+                match_type, distance, length, output.len(), input.len()
+            );
+        }
+
+        Ok(())
+    }
+
     #[test]
     fn test_simple_literal_compression() -> Result<()> {
         let mut compressor = setup_test_compressor()?;
